@@ -74,12 +74,17 @@ def chained_preemptions(scn, stages, setup=None, prefer_role=None):
     """Targeted enumeration of k forced switches.  stages: list of dicts {"site": predicate(site), "from":
     role of the running thread, "to": role of the thread switched to, "limit": most candidates taken per
     prefix, "stride": take every n-th}.  Stage i looks, in the pilot of the run forced so far, at the yield
-    points after the previous switch.  Yields switch dicts."""
+    points after the previous switch.  prefer_role: whenever the running thread blocks after the first forced
+    switch, threads of that role run first.  Yields strategy specs."""
+    pref = []
 
     def rec(prefix, after, i):
-        o = run_scenario(scn, {"kind": "forced", "switches": prefix} if prefix else {"kind": "np"}, pilot=True, setup=setup)
+        strat = {"kind": "forced", "switches": prefix, "prefer": list(pref)} if prefix else {"kind": "np"}
+        o = run_scenario(scn, strat, pilot=True, setup=setup)
         pilot = o.pilot
         roles = {t.tid: t.role for t in o.world.sched.threads}
+        if prefer_role and not pref:
+            pref.extend(t for t, r in sorted(roles.items()) if r == prefer_role)
         finish(o)
         st = stages[i]
         cands = []
